@@ -76,17 +76,22 @@ fn hull_validity_contract() {
 // ---- every query refuses a stale hull before touching caches or facets ---------------------
 macro_rules! stale_query {
     ($name:ident, $call:expr, $pat:pat, $obl:literal) => {
+        stale_query!(@gen $name, $call, $obl, { let g: u64 = kani::any(); let t: u64 = kani::any(); kani::assume(g != t); (g, t) }, { let n: usize = kani::any(); kani::assume(n >= 1 && n <= 2); n });
+    };
+    // quick-tier instances: concrete generation pairs (older and newer hull), one facet handle -
+    // CBMC then prunes everything behind the staleness guard by constant propagation
+    (@concrete $name:ident, $call:expr, $obl:literal, $g:expr, $t:expr) => {
+        stale_query!(@gen $name, $call, $obl, { ($g as u64, $t as u64) }, { 1usize });
+    };
+    (@gen $name:ident, $call:expr, $obl:literal, $gens:block, $nf:block) => {
         #[kani::proof]
         #[kani::unwind(4)]
         #[kani::stub(Tds::build_facet_to_cells_map, stub_map)]
         #[kani::stub(Tds::generation, stub_generation)]
         fn $name() {
-            let g: u64 = kani::any();
-            let t: u64 = kani::any();
-            kani::assume(g != t); // the triangulation changed after the hull was extracted
+            let (g, t): (u64, u64) = $gens; // g != t: the triangulation changed after the hull was extracted
             let tri = mk_tri(t);
-            let n: usize = kani::any();
-            kani::assume(n >= 1 && n <= 2);
+            let n: usize = $nf;
             let hull = mk_hull(Some(g), n);
             vk_reset(0, 0);
             let p: Point<f64, 2> = Point::new([kani::any(), kani::any()]);
@@ -110,3 +115,12 @@ stale_query!(hull_stale_find_nearest, |h, t, p, _f| { let r = h.find_nearest_vis
     "OBL stale-find-nearest: find_nearest_visible_facet() on a stale hull reports StaleHull instead of an answer");
 stale_query!(hull_stale_facet_visible, |h, t, p, f| { let r = h.is_facet_visible_from_point(f, p, t); let s = matches!(&r, Err(ConvexHullConstructionError::StaleHull { .. })); core::mem::forget(r); s }, _,
     "OBL stale-facet-visible: is_facet_visible_from_point() on a stale hull reports StaleHull instead of an answer");
+
+stale_query!(@concrete hull_stale_is_point_outside_c56, |h, t, p, _f| { let r = h.is_point_outside(p, t); let s = matches!(&r, Err(ConvexHullConstructionError::StaleHull { .. })); core::mem::forget(r); s },
+    "OBL stale-is-point-outside: is_point_outside() on a stale hull reports StaleHull instead of an answer", 5, 6);
+stale_query!(@concrete hull_stale_is_point_outside_c65, |h, t, p, _f| { let r = h.is_point_outside(p, t); let s = matches!(&r, Err(ConvexHullConstructionError::StaleHull { .. })); core::mem::forget(r); s },
+    "OBL stale-is-point-outside: is_point_outside() on a stale hull reports StaleHull instead of an answer", 6, 5);
+stale_query!(@concrete hull_stale_facet_visible_c56, |h, t, p, f| { let r = h.is_facet_visible_from_point(f, p, t); let s = matches!(&r, Err(ConvexHullConstructionError::StaleHull { .. })); core::mem::forget(r); s },
+    "OBL stale-facet-visible: is_facet_visible_from_point() on a stale hull reports StaleHull instead of an answer", 5, 6);
+stale_query!(@concrete hull_stale_find_nearest_c65, |h, t, p, _f| { let r = h.find_nearest_visible_facet(p, t); let s = matches!(&r, Err(ConvexHullConstructionError::StaleHull { .. })); core::mem::forget(r); s },
+    "OBL stale-find-nearest: find_nearest_visible_facet() on a stale hull reports StaleHull instead of an answer", 6, 5);
